@@ -38,10 +38,18 @@ claim('C18', 'CrossHair symbolic execution of the real Indenter: one handle_NL s
       'lazily realised token streams incl. streams after an abandoned/failed earlier stream, vs. CPython\'s stack algorithm and the real tokenize module',
       'The step harness is inductive (one step from an arbitrary valid state covers streams of any length) for stack depth <= 6; streams are bounded in length.',
       'Trusted: reference algorithm; stub: formatting of symbolic ints into the DedentError message returns the template.', '3/C18')
+claim('C04', 'CrossHair symbolic execution of the real Earley SPPF construction and explicit-ambiguity tree building over lazily realised token sequences and class-strings, '
+      'vs. the complete derivation set of a reference enumerator (set equality); direct derivation-tree validity for cyclic grammars; watchdog for termination',
+      'Bounded: every token string / class-string up to the bound on each corpus grammar; completeness and soundness as set equality of shaped trees.',
+      'Trusted: refsem.cfg derivation enumeration and refsem.shape.', '3/C04')
 claim('C05', 'CrossHair symbolic execution of the real Earley forest priority code with unbounded symbolic integer rule/terminal priorities (solver decides optimality for all of Z^n per path), '
       'solver-closed enumeration of priority vectors x priority modes through Lark.__init__, sampled hash seeds for determinism',
       'Optimality is decided for all signed priorities on each (corpus grammar, ambiguous input) pair; inputs and grammars are bounded; hash seeds are sampled (declared outside the quantifier).',
       'Trusted: refsem derivation enumeration; priorities are written into Rule.options after construction in the symbolic harness.', '3/C05')
+claim('C20', 'CrossHair symbolic execution of the real SPPF construction and every forest visitor/transformer class, vs. the set of unshaped derivation trees; walks on cyclic grammars '
+      'under a watchdog with on_cycle accounting',
+      'Bounded as C04; completeness for BNF grammars (helper-rule names of EBNF expansions are not part of the documented forest).',
+      'Trusted: refsem.cfg derivation enumeration.', '3/C20')
 claim('C06', 'z3 regex-theory queries on sre_parse translations of the real terminal regexps (newline lemma, unbounded over strings) + CrossHair symbolic execution of LineCounter '
       'from an arbitrary integer pre-state + CrossHair over all class-strings through every lexer',
       'The newline lemma is decided for all strings per terminal spelling; the counter step is inductive over unbounded integer state with a bounded token; the end-to-end part is bounded by '
